@@ -606,7 +606,7 @@ func addV1PatchCase(run *Run, label, nw, dw string) {
 // implementations on a it yields b; read back with the v1 readers and applied to a it yields b.
 
 var c18Keys = []string{"a", "b", "0", "1", "10", "01", "-1", "a/b", "m~n", "", "~1"}
-var c18KeysMore = []string{"a", "0", "1", "2", "-0", "+1", "007", "9223372036854775807", "9223372036854775808", "1e3", "1.0", "٣", " 1", "~0", "~01", "/", "//", "~", "a~1b", "é", "<&>", "k"}
+var c18KeysMore = []string{"a", "0", "1", "2", "-0", "+1", "007", "9223372036854775807", "9223372036854775808", "1e3", "1.0", "٣", " 1", "~0", "~01", "/", "//", "~", "a~1b", "é", "<&>", "k", "a ", " ", "\t", "1 ", "\u00a0", "k\n", " a"}
 
 func c18Cfg(r *Rng) GenCfg {
 	cfg := DefaultCfg()
